@@ -5,8 +5,10 @@ import MirosModel.Gen.Constants
 `hsm <cfg> n p1..pn i1..in x1..xn depth nR (s sig kind tgt)*nR nOps (op arg)*nOps`
   cfg: 9 = generated `Gen.cfg`, else bits resync(1) drillGuard(2) initGuard(4)
   kind: 0 tran, 1 handled, 2 unhandled, 3 none   (absent ⇒ pass)
-  op: 0 start s | 1 dispatch n | 2 is_in X | 3 child_state P
+  op: 0 start s | 1 dispatch n | 2 is_in X | 3 child_state P | 4 (test only) place the chart in state s
 `hsmspec …` same input, answers with the UML spec instead of the faithful model.
+`hsmf …` the `hsm` format with ` nFall f1..f_nFall` (ids of the fall-through states: handlers without
+  final `else`) inserted directly after `depth`; `hsm` / `hsmspec` charts have none.
 -/
 namespace Miros.Drive
 open Miros.Hsm
@@ -53,13 +55,14 @@ structure HCase where
   chart : Chart
   ops : List (Nat × Nat)
 
-def parseChart : P (Cfg × Tab × Chart) := do
+def parseChartF (withFall : Bool) : P (Cfg × Tab × Chart) := do
   let code ← nat
   let n ← nat
   let parent ← nats n
   let inits ← nats n
   let exith ← nats n
   let depth ← nat
+  let falls ← if withFall then (do let nF ← nat; nats nF) else pure []
   let nR ← nat
   let mut rl : List (Nat × Nat × Nat × Nat) := []
   for _ in [0:nR] do
@@ -78,17 +81,22 @@ def parseChart : P (Cfg × Tab × Chart) := do
       | some t => if sid s = 0 || t = 0 then none else some (tab.path t)
       | none => none
     exitH := fun s => (exith[sid s - 1]?).getD 1 = 1
-    depth := depth }
+    depth := depth
+    fall := fun s => sid s != 0 && falls.contains (sid s) }
   pure (cfgOf code, tab, chart)
 
-def parseCase : P HCase := do
-  let (cfg, tab, chart) ← parseChart
+def parseChart : P (Cfg × Tab × Chart) := parseChartF false
+
+def parseCaseF (withFall : Bool) : P HCase := do
+  let (cfg, tab, chart) ← parseChartF withFall
   let nOps ← nat
   let mut ops := []
   for _ in [0:nOps] do
     let o ← nat; let a ← nat
     ops := ops ++ [(o, a)]
   pure ⟨cfg, tab, chart, ops⟩
+
+def parseCase : P HCase := parseCaseF false
 
 def showRes (tag : String) (r : Res) : String :=
   s!"{tag} state={sid r.state} temp={sid r.temp} log={showLog r.log}"
@@ -98,6 +106,16 @@ def showOutcome (o : Outcome Res) : String × Option Res :=
   | .ok r => (showRes "ok" r, some r)
   | .raise l => (s!"raise log={showLog l}", none)
   | .diverge l => (s!"diverge log={showLog l}", none)
+
+/-- a query: `tag` renders the answer (`none` = AssertionError, the caller may go on) -/
+def showQuery {α : Type} (tag : α → Option String) (o : Outcome (α × Res)) : String × Bool :=
+  match o with
+  | .ok (a, r) =>
+    match tag a with
+    | some t => (showRes t r, true)
+    | none => (s!"assert state={sid r.state} temp={sid r.temp} log={showLog r.log}", true)
+  | .raise l => (s!"raise log={showLog l}", false)
+  | .diverge l => (s!"diverge log={showLog l}", false)
 
 def runOps (h : HCase) : List (Nat × Nat) → St → List String → List String
   | [], _, acc => acc
@@ -111,17 +129,25 @@ def runOps (h : HCase) : List (Nat × Nat) → St → List String → List Strin
       | (s, some r) => runOps h rest r.state (acc ++ [s])
       | (s, none) => acc ++ [s]
     else if o = 2 then
-      let (b, r) := isIn cur (h.tab.path a)
-      runOps h rest cur (acc ++ [showRes (if b then "ok res=1" else "ok res=0") r])
+      match showQuery (fun b => some (if b then "ok res=1" else "ok res=0")) (isIn h.chart cur (h.tab.path a)) with
+      | (s, true) => runOps h rest cur (acc ++ [s])
+      | (s, false) => acc ++ [s]
+    else if o = 4 then
+      -- test only: place the chart in state `a` (state.fun = temp.fun = a) without running anything
+      runOps h rest (h.tab.path a) (acc ++ [showRes "ok" ⟨h.tab.path a, h.tab.path a, []⟩])
     else
-      match childState cur (h.tab.path a) with
-      | (some ch, r) => runOps h rest cur (acc ++ [showRes s!"ok res={sid ch}" r])
-      | (none, r) =>
-        -- the query failed (AssertionError); the caller may go on using the chart
-        runOps h rest cur (acc ++ [s!"assert state={sid r.state} temp={sid r.temp} log={showLog r.log}"])
+      -- a failed query (AssertionError) is reported and the caller may go on using the chart
+      match showQuery (fun (r : Option St) => r.map fun ch => s!"ok res={sid ch}")
+          (childState h.chart cur (h.tab.path a)) with
+      | (s, true) => runOps h rest cur (acc ++ [s])
+      | (s, false) => acc ++ [s]
 
 def hsmLine (toks : List Nat) : String :=
   let (h, _) := parseCase.run toks
+  " | ".intercalate (runOps h h.ops [] [])
+
+def hsmfLine (toks : List Nat) : String :=
+  let (h, _) := (parseCaseF true).run toks
   " | ".intercalate (runOps h h.ops [] [])
 
 /-- the same operations answered by the (checked) specification (actions only) -/
